@@ -318,7 +318,12 @@ pub fn par_each<T: Sync>(items: &[T], threads: usize, f: impl Fn(&T, &mut Report
                 // strided partition keeps simplest-first order inside each thread
                 let mut i = t;
                 while i < items.len() {
-                    f(&items[i], &mut r);
+                    // a panic escaping an engine's own catch() is a hole in the harness: report it as such
+                    if let Err(p) = catch(|| f(&items[i], &mut r)) {
+                        if r.machinery_errors.len() < 5 {
+                            r.machinery_errors.push(format!("uncaught panic while exploring item #{i}: {p}"));
+                        }
+                    }
                     i += threads;
                 }
                 r
